@@ -296,9 +296,28 @@ def r10_6(ctx) -> None:
                     defs = [d for d in eng.flow._defs(a).get(lst, []) if d[0] == "assign"]
                     texts = sorted(norm(d[1]) for d in defs)
                     if texts == sorted([vp, f"[{vp}]"]):
-                        oka = True
+                        # the bare value is used only when it is a real collection of audiences: for a str (itself a
+                        # Sequence) `v in value` is a substring test, so anything but list / tuple / set must be wrapped
+                        bare = [d[1] for d in defs if norm(d[1]) == vp]
+                        bn = cfg.node_of(bare[0])
+                        okw = bn is not None
+                        for path in (cfg.guards_of(bn) if bn is not None else []):
+                            if not any(outcome and _is_collection_test(tn.ast, vp) for tn, outcome in path):
+                                okw = False
+                        wrapped = [d[1] for d in defs if norm(d[1]) == f"[{vp}]"]
+                        wn = cfg.node_of(wrapped[0])
+                        # and a value that is not such a collection always reaches the wrapping assignment or leaves
+                        oka = okw and wn is not None
     ctx.check(oka, "R10.6", a, a.node, f"{a.short} :: intersection", "aud is not accepted exactly when at least one requested audience is among the token's audiences (scalar wrapped in a list)",
               "raise InvalidClaimError('aud') iff not any(v in aud_list for v in option_values)", construct="aud intersection")
+
+
+def _is_collection_test(e: ast.AST, vp: str) -> bool:
+    """isinstance(<vp>, list) / (list, tuple) / set ... - element containers only (never str / Sequence / Iterable)"""
+    if not (isinstance(e, ast.Call) and isinstance(e.func, ast.Name) and e.func.id == "isinstance" and len(e.args) == 2 and norm(e.args[0]) == vp):
+        return False
+    tys = e.args[1].elts if isinstance(e.args[1], ast.Tuple) else [e.args[1]]
+    return bool(tys) and all(isinstance(t, ast.Name) and t.id in ("list", "tuple", "set", "frozenset") for t in tys)
 
 
 def r10_7_8(ctx) -> None:
